@@ -98,17 +98,17 @@ def path_roundtrip_sqlite_quote(k: str) -> bool:
     return ok(_roundtrip_sqlite([k]))
 
 
-KEYS2 = ('a', 'a.b', '', '0', ' ', 'a[0]', '[1]', '.', 'a b', '\u00e9t\u00e9', '_x1', 0, 1, -1, 10, -12)
+KEYS2 = ('a', 'a.b', '', '0', ' ', 'a[0]', '[1]', '.', 'a b', '\u00e9t\u00e9', '_x1', 0, 1, -1, 10, -12, 'caf\u00e9', 'x_\u043a1')      # (the last two: identifiers by Python's rule, not by ASCII's)
 
 
 def path_roundtrip_sqlite_2(k1: int, k2: int, k3: int, three: bool) -> bool:
     """
-    pre: 0 <= k1 < 16 and 0 <= k2 < 16 and 0 <= k3 < 4
+    pre: 0 <= k1 < 18 and 0 <= k2 < 18 and 0 <= k3 < 4
     post: _
     """
     # two- and three-element paths: every mix of string keys (plain, needing quotes, looking like path syntax) and
     # indexes (positive, negative, multi-digit), chosen by the solver from a pool
-    k1, k2 = KEYS2[conc(k1, 16)], KEYS2[conc(k2, 16)]
+    k1, k2 = KEYS2[conc(k1, 18)], KEYS2[conc(k2, 18)]
     keys = [k1, k2, ('a', 'a b', 0, -12)[conc(k3, 4)]] if three else [k1, k2]
     with NoTracing():
         return ok(_roundtrip_sqlite(keys))
@@ -781,15 +781,16 @@ def json_e2e_negative_index(json1: bool, two: bool) -> bool:
 E2E_ARRAYS = ([], [1], [1, 2, 3], [3, 3, 0, -1])
 E2E_ARRAY_OPS = (('P', 'len(t.arr)'), ('F', 't.arr'), ('F', '1 in t.arr'), ('F', '3 not in t.arr'), ('F', 'x in t.arr'), ('F', '[1, 2] in t.arr'),
                  ('F', '[x, 3] in t.arr'), ('F', '[] in t.arr'), ('F', 'xs in t.arr'), ('P', 't.arr[0]'), ('P', 't.arr[1:]'), ('P', 't.arr[x]'),
-                 ('P', 't.arr[:x]'), ('F', 'len(t.arr) > x'), ('F', '[4] not in t.arr'))
+                 ('P', 't.arr[:x]'), ('F', 'len(t.arr) > x'), ('F', '[4] not in t.arr'), ('F', '[] not in t.arr'), ('F', 'xs not in t.arr'),
+                 ('F', '[1, 1, 2] in t.arr'), ('F', 'not ([] in t.arr)'), ('F', '[] not in t.arr or len(t.arr) > x'))
 
 
 def array_e2e(a: int, op: int, x: int, xs: int) -> bool:
     """
-    pre: 0 <= a < 4 and 0 <= op < 15 and 0 <= x <= 3 and 0 <= xs <= 2
+    pre: 0 <= a < 4 and 0 <= op < 20 and 0 <= x <= 3 and 0 <= xs <= 2
     post: _
     """
-    a, op = conc(a, 4), conc(op, 15)
+    a, op = conc(a, 4), conc(op, 20)
     kind, expr = E2E_ARRAY_OPS[op]
     x = conc(x, 4) if 'x' in expr.replace('xs', '') else 0
     xs = conc(xs, 3) if 'xs' in expr else 0
@@ -801,7 +802,9 @@ def array_e2e(a: int, op: int, x: int, xs: int) -> bool:
         def member(items, arr):                           # `[..] in array` asks whether every item is in the array
             return all(i in arr for i in items)
         try:
-            if ' not in t.arr' in expr and expr.startswith('['): want = not member(eval(expr.split(' not in ')[0], {}, scope), arr)
+            if expr == 'not ([] in t.arr)': want = not member([], arr)
+            elif expr == '[] not in t.arr or len(t.arr) > x': want = (not member([], arr)) or len(arr) > x
+            elif ' not in t.arr' in expr and (expr.startswith('[') or expr.startswith('xs')): want = not member(eval(expr.split(' not in ')[0], {}, scope), arr)
             elif ' in t.arr' in expr and (expr.startswith('[') or expr.startswith('xs')): want = member(eval(expr.split(' in ')[0], {}, scope), arr)
             else: want = eval(expr, {'len': len}, dict(scope, t=_Row(arr=arr)))
         except IndexError:
